@@ -143,7 +143,7 @@ def run_wire(ctx, prop):
         ncases = 150 if quick else 2500
         out = C.run_harness(ctx, bins["wire"], ["--server", server, "--mode", "burst", "--cases", ncases, "--seed", ctx.seed], timeout=2400)
         rows = [r for r in _lines(out) if r.get("mode") == "burst"]
-        bd = {"bursts": len(rows), "requests": 0, "n_ge_2b": 0, "mixed_protocols": 0, "denied_with_zero_retry(timestamp disorder)": 0}
+        bd = {"bursts": len(rows), "requests": 0, "n_ge_2b": 0, "mixed_protocols": 0}
         for r in rows:
             ws = r["wires"]
             bd["requests"] += len(ws)
@@ -156,16 +156,26 @@ def run_wire(ctx, prop):
             adm = [w for w in ws if w["a"]]
             den = [w for w in ws if not w["a"]]
             want = min(r["n"], r["b"])
-            # a denial with retry_after 0 s while budget remains is the sub-microsecond timestamp disorder of DESIGN.md (stamped before enqueue)
-            soft = sum(1 for w in den if w["retry"] == 0)
-            bd["denied_with_zero_retry(timestamp disorder)"] += soft
+            # class stamp-disorder (KNOWN_FINDINGS.txt, findings/F10-stamp-disorder.json): a request stamped earlier than one already
+            # served is denied with retry_after 0 whole seconds (the emission interval is one hour) while budget remains, or is
+            # admitted reporting a remaining budget one lower than its rank
+            soft = sum(1 for w in den if w["retry"] == 0 and w["lim"] == r["b"])
             rems = sorted(w["rem"] for w in adm)
+            base = r["b"] - len(adm)          # the k-th admitted request of a fresh key reports max_burst - k
+            low = sum(1 for i, x in enumerate(rems) if x == base + i - 1)
             if len(adm) > want or len(adm) + soft < want:
                 ctx.violations.append({"what": "C09: %d simultaneous unit requests on a fresh key with max_burst %d admitted %d (expected exactly %d)" % (r["n"], r["b"], len(adm), want), "input": inp})
-            elif len(set(rems)) != len(rems) or any(w["lim"] != r["b"] for w in ws) or (rems and (rems[0] < 0 or rems[-1] > r["b"] - 1)):
-                ctx.violations.append({"what": "C09: the admitted requests of a simultaneous burst do not report distinct remaining budgets of one shared bucket (lost update / per-transport state)", "input": inp})
+            elif any(w["lim"] != r["b"] for w in ws) or any(x not in (base + i, base + i - 1) or x < 0 for i, x in enumerate(rems)):
+                ctx.violations.append({"what": "C09: the admitted requests of a simultaneous burst do not report the remaining budgets of one shared bucket (lost update / per-transport state)", "input": inp})
             else:
                 n_ok += 1
+                if len(adm) < want or low:
+                    bd["stamp_disorder_bursts"] = bd.get("stamp_disorder_bursts", 0) + 1
+                    ctx.f10_hits = getattr(ctx, "f10_hits", 0) + 1
+                    if len(adm) < want:
+                        bd["stamp_disorder_shortfalls"] = bd.get("stamp_disorder_shortfalls", 0) + 1
+                        if len(ctx.notes) < 3:
+                            ctx.notes.append("stamp-disorder shortfall observed on the wire: " + json.dumps(inp)[:600])
         n_eval += bd["requests"]
         stats["burst"] = bd
     # ---------------------------------------------------------------- hostile prefix then probes (C11)
@@ -193,6 +203,15 @@ def run_wire(ctx, prop):
                 want2 = {"a": True, "lim": b, "rem": b - 2, "retry": 0}
                 if any(f.get(k) != v for k, v in want1.items()) or any(s2.get(k) != v for k, v in want2.items()):
                     bad = "after the hostile prefix a valid request on a fresh key (max_burst %d, 1 per 1000 s) is not answered with its correct decision on protocol %d and then on the next protocol" % (b, p["proto"])
+            sl = r.get("slow_client")
+            if sl:
+                pd["slow_client_commands"] = pd.get("slow_client_commands", 0) + len(sl["answers"])
+                want = [{"a": True, "lim": sl["b"], "rem": sl["b"] - 1 - i, "retry": 0} for i in range(8)]
+                got = sl["answers"]
+                if len(got) != 8 or any(any(g.get(k) != v for k, v in w.items()) for g, w in zip(got, want)):
+                    bad = ("a client that sends 8 valid THROTTLE commands one byte per write on ONE connection is not answered correctly on that connection "
+                           "(after fragmented traffic the connection no longer serves well-formed requests): answers %s" % json.dumps(got)[:600])
+                    inp["slow_client"] = sl
             if bad:
                 ctx.violations.append({"what": "C11: " + bad, "input": inp})
             else:
